@@ -206,15 +206,37 @@ class HistoryModel:
         faults = [f for f in self._faults_for(key) if tuple(tuple(x) for x in f["path"]) in ex.exec_paths]
         if faults:
             ex.kind = "raises"
-            ex.raises = ("TawaziBaseException", "InjectedError", "InjectedBase")
+            ex.raises = ("TawaziBaseException", "InjectedError", "InjectedBase", "InjectedTwoArgs")
             ex.fault_paths = [tuple(tuple(x) for x in f["path"]) for f in faults]
         else:
             st.setup_memo = memo
         # missing required arguments are a caller error
         dg = self.spec["dags"][st.dname]
         if len(args) < sum(1 for p in dg["params"] if not p[1]):
-            ex.kind = "any"
+            ex.kind = "any"          # a required argument is missing: caller error, nothing about this execution is judged
+            ex.exec_paths = None
+            ex.note = "missing-argument"
         return ex
+
+    def compose_need(self, st: InstanceState) -> Set[int]:
+        """Statements of the original that a composed DAG contains: closure of the outputs stopping at the inputs."""
+        comp = st.composed
+        assert comp is not None
+        g = flat_graph(self.spec, st.dname)
+        need: Set[Any] = set()
+        ins = set(comp["inputs"])
+
+        def closure(n: Any) -> None:
+            for q in g["pred"][n]:
+                if q in ins or q in need:
+                    continue
+                need.add(q)
+                closure(q)
+        for o in comp["outputs"]:
+            if o not in ins:
+                need.add(o)
+                closure(o)
+        return {n[1] for n in need if n[0] == "s"}
 
     def _composed_expect(self, key: tuple, inst: str, args: List[Any]) -> Expect:
         st = self.inst[inst]
@@ -325,8 +347,9 @@ class HistoryModel:
                 return
             info["ran"] = True
             selected = {n[1] for n in info["S"] if n[0] == "s"}
-            ex = self._call_expect(key, info["inst"], [lit(a) for a in op["args"]], selected=selected)
             st = self.inst[info["inst"]]
+            pre_memo = dict(st.setup_memo)
+            ex = self._call_expect(key, info["inst"], [lit(a) for a in op["args"]], selected=selected)
             if info.get("from_cache") and info["from_cache"] in self.caches and ex.exec_paths is not None and ex.kind == "value":
                 # cached results count as already computed: re-evaluate with the cached values substituted
                 cache = self.caches[info["from_cache"]]
@@ -339,7 +362,7 @@ class HistoryModel:
                             subst[o] = val[j] if val is not None else None
                     else:
                         subst[s_["out"][0]] = val
-                memo2 = dict(st.setup_memo)
+                memo2 = dict(pre_memo)
                 r2 = self.ref.run(st.dname, [lit(a) for a in op["args"]], setup_memo=memo2, debug_on=self.debug_on, selected=selected, subst=subst)
                 ex.value = r2.ret
                 ex.exec_paths = {p for p, sname in r2.status.items() if sname in ("exec", "op")}
@@ -526,6 +549,12 @@ class HistoryModel:
                 ex.selected = {n[1] for n in info["S"] if n[0] == "s"}
             else:
                 ex.inst = op["inst"]
+                if ex.inst not in self.inst:
+                    self.expect[key] = Expect("any")
+                    return
+                if self.inst[ex.inst].composed is not None:
+                    ex.selected = self.compose_need(self.inst[ex.inst])
+                    ex.note = "composed"
             ex.overrides = copy.deepcopy(self.inst[ex.inst].overrides)
             self.expect[key] = ex
         elif k == "set_debug":
